@@ -143,6 +143,7 @@ def execute(G, c):
                                    % (k, got[k], type(got[k]).__name__, v.py, v.kind, v.tlv.hex()))
     else:
         exp = [(rb.oid_text(n), v) for n, v in zip(names, vals)]
+        got = drivers.walk_pairs(got, "%s over %s" % (op, cfg.describe())) if isinstance(got, list) else got
         if not isinstance(got, list) or [g[0] for g in got] != [e[0] for e in exp]:
             raise core.Failure("keys:" + sig, "%s yielded oids %r, expected %r" % (op, [g[0] for g in got], [e[0] for e in exp]))
         for (k, v), g in zip(exp, got):
